@@ -182,7 +182,10 @@ func (d *Document) writeJSONValue(buf *bytes.Buffer, value Value) error {
 				variableName := d.Input.ByteSliceString(d.VariableValues[objFieldValue.Ref].Name)
 				_, dataType, _, _ := jsonparser.Get(d.Input.Variables, variableName)
 				if dataType == jsonparser.NotExist {
-					continue
+					// a variable without a value takes the default of its definition; without one the field is absent
+					if _, hasDefault := d.variableDefaultValue(variableName); !hasDefault {
+						continue
+					}
 				}
 			}
 
@@ -203,6 +206,12 @@ func (d *Document) writeJSONValue(buf *bytes.Buffer, value Value) error {
 		variableName := d.Input.ByteSliceString(d.VariableValues[value.Ref].Name)
 		variableValue, dataType, _, err := jsonparser.Get(d.Input.Variables, variableName)
 		if err != nil {
+			// A variable without a value takes the default of its definition. The defaults have not
+			// necessarily been copied into the variables yet when a literal that mentions the variable
+			// is converted (variable extraction runs before the extraction of defaults).
+			if defaultValue, hasDefault := d.variableDefaultValue(variableName); hasDefault {
+				return d.writeJSONValue(buf, defaultValue)
+			}
 			buf.Write(literal.NULL)
 			return nil //nolint:nilerr // A missing variable is rendered as GraphQL null.
 		}
